@@ -8,7 +8,7 @@ Results: /verif/scratch/mutresults/<id>-<variant>.json ; confirmed ones are copi
 """
 import glob, json, os, re, shutil, subprocess, sys, time
 
-W = '/tmp/confirm'
+W = os.environ.get('MUTQ_W', '/tmp/confirm')
 RES = '/verif/scratch/mutresults'
 os.makedirs(RES, exist_ok=True)
 
@@ -73,11 +73,11 @@ def process(d, pid, variant):
         r['demo'].update({'passes_without_change': ok0, 'passes_with_change': ok1, 'tail_without': o0[-400:], 'tail_with': o1[-600:]})
         clean()
     # pinned suite with the change
-    rc, out = sh(f'/verif/tools/confirm_mutant.sh {patch}', timeout=5400)
+    rc, out = sh(f'MUT_W={W} /verif/tools/confirm_mutant.sh {patch}', timeout=5400)
     r['suite'] = {'all_stable_pass': rc == 0, 'summary': out.strip().splitlines()[-6:]}
     # our check
     checks = os.environ.get('MUT_CHECKS', pid)
-    rc, out = sh(f'/verif/tools/mutant_check.sh {patch} {checks}', timeout=5400)
+    rc, out = sh(f'MUT_W={W} MUT_ALT={W}-nvc MUT_OUT={W}-out MUT_TGT={W}-nvc-target /verif/tools/mutant_check.sh {patch} {checks}', timeout=5400)
     r['check'] = out.strip().splitlines()
     r['detected'] = any('DETECTED' in l for l in r['check'])
     r['finished'] = time.ctime()
@@ -87,9 +87,11 @@ def process(d, pid, variant):
 def main():
     dirs = sys.argv[1:] or sorted(glob.glob('/tmp/mut-*/OUT/[AB]'))
     for d in dirs:
-        m = re.search(r'mut-(c\d+)/OUT/([AB])', d)
+        m = re.search(r'mut(2?)-(c\d+)/OUT/([AB])', d)
         if not m or not os.path.exists(f'{d}/patch.diff'):
             continue
-        process(d, m.group(1).upper(), m.group(2))
+        # round 2 (worktrees /tmp/mut2-*) is filed as variants C and D
+        variant = m.group(3) if not m.group(1) else {'A': 'C', 'B': 'D'}[m.group(3)]
+        process(d, m.group(2).upper(), variant)
 
 main()
